@@ -18,6 +18,7 @@ import (
 	"errors"
 	"fmt"
 	"net"
+	"strings"
 )
 
 type IPInfoMap interface {
@@ -98,6 +99,11 @@ func GetIPInfoFromAddr(ip2info IPInfoMap, addr net.Addr) (IPInfo, error) {
 	if err != nil {
 		info.CountryCode = errParseAddr
 		return info, fmt.Errorf("failed to split hostname and port: %w", err)
+	}
+	// A zone ("fe80::1%eth0") names the interface a link-local peer was seen on, not the host:
+	// the location is that of the IP address.
+	if i := strings.IndexByte(hostname, '%'); i >= 0 {
+		hostname = hostname[:i]
 	}
 	ip := net.ParseIP(hostname)
 	if ip == nil {
